@@ -121,7 +121,7 @@ def space_c(tier: str):
         ia, ib, o1, o2, b1, b2, r1, r2, r3, r4 = flags
         rules1 = [R.rule(("and", P("a", (), "lo"), P("b", (), "hi")), [("o1", (), "lo"), ("o2", (), "hi")], enabled=r1),
                   R.rule(P("a", (), "hi"), [("o1", (), "hi")], enabled=r2)]
-        rules2 = [R.rule(("or", P("b", (), "lo"), P("o1", (), "hi")), [("o2", (), "lo")], weight="0.500", enabled=r3),
+        rules2 = [R.rule(("or", ("and", P("b", (), "lo"), P("a", ("any",), None)), P("o1", (), "hi")), [("o2", (), "lo")], weight="0.500", enabled=r3),
                   R.rule(P("a", ("very",), "lo"), [("o2", (), "hi"), ("o1", (), "lo")], enabled=r4)]
         yield R.engine("C", [R.in_var("a", enabled=ia), R.in_var("b", enabled=ib)],
                        [R.out_var("o1", enabled=o1, aggregation="AlgebraicSum"), R.out_var("o2", enabled=o2, defuzzifier=("Bisector", 16))],
